@@ -171,7 +171,7 @@ class ExperimentParser(Parser):
 
     @_("LPAREN term op_term")
     def tuple(self, p):
-        return [p.term] + p.op_term
+        return tuple([p.term] + p.op_term)
 
     @_("COMMA term op_term")
     def op_term(self, p):
